@@ -144,3 +144,153 @@ package composite
 //@   update applied = ite(err == nil, add(applied, i), applied)
 //@ ensures [C05:every-template-reported] err == nil ==> len(result.Composed) == len(tas)
 //@ ensures [C05:reported-synced-only-if-applied] err == nil ==> forall j :: 0 <= j && j < len(result.Composed) ==> (result.Composed[j].Synced ==> (j in applied))
+
+// C10: zero-annotation safety sweep of the patch-and-transform rendering code: every nil
+// dereference, index, slice bound, unchecked type assertion, nil-map write and division in
+// these functions is an obligation, with no precondition other than what the code itself
+// checks (e.g. a transform's own Validate()).
+
+//@ func composite.Resolve
+//@ props C10
+//@ sweep
+
+//@ func composite.ResolveMath
+//@ props C10
+//@ sweep
+
+//@ func composite.resolveMathMultiply
+//@ props C10
+//@ requires [C10:validated-multiply] t.Multiply != nil
+//@ sweep
+
+//@ func composite.resolveMathClamp
+//@ props C10
+//@ requires [C10:validated-clamp] (t.Type == "ClampMin" ==> t.ClampMin != nil) && (t.Type == "ClampMax" ==> t.ClampMax != nil)
+//@ sweep
+
+//@ func composite.ResolveMap
+//@ props C10
+//@ sweep
+
+//@ func composite.ResolveMatch
+//@ props C10
+//@ sweep
+
+//@ func composite.Matches
+//@ props C10
+//@ sweep
+
+//@ func composite.matchesLiteral
+//@ props C10
+//@ sweep
+
+//@ func composite.matchesRegexp
+//@ props C10
+//@ sweep
+
+//@ func composite.unmarshalJSON
+//@ props C10
+//@ sweep
+
+//@ func composite.ResolveString
+//@ props C10
+//@ sweep
+
+//@ func composite.stringConvertTransform
+//@ props C10
+//@ requires [C10:conversion-type-given] t != nil
+//@ sweep
+
+//@ func composite.stringTrimTransform
+//@ props C10
+//@ sweep
+
+//@ func composite.stringRegexpTransform
+//@ props C10
+//@ sweep
+
+//@ func composite.stringJoinTransform
+//@ props C10
+//@ sweep
+
+//@ func composite.ResolveConvert
+//@ props C10
+//@ sweep
+
+//@ func composite.GetConversionFunc
+//@ props C10
+//@ requires [C10:transform-given] t != nil
+//@ sweep
+
+//@ func composite.Apply
+//@ props C10
+//@ sweep
+
+//@ func composite.ApplyToObjects
+//@ props C10
+//@ sweep
+
+//@ func composite.filterPatch
+//@ props C10
+//@ sweep
+
+//@ func composite.ResolveTransforms
+//@ props C10
+//@ sweep
+
+//@ func composite.patchFieldValueToMultiple
+//@ props C10
+//@ sweep
+
+//@ func composite.ApplyFromFieldPathPatch
+//@ props C10
+//@ sweep
+//@ ghost missing bool = false
+//@ let $geterr = result 1 (*fieldpath.Paved).GetValue
+//@ site (*fieldpath.Paved).GetValue(_, _)
+//@   update missing = fieldpath.IsNotFound(err)
+//@ optional site composite.patchFieldValueToObject(_, _, $to, _)
+//@   assert [C10:no-patch-when-source-field-missing] !missing && $to == to
+//@ optional site composite.patchFieldValueToMultiple(_, _, $to, _)
+//@   assert [C10:no-patch-when-source-field-missing] !missing && $to == to
+//@ ensures [C10:optional-missing-is-skipped] (missing && (p.Policy == nil || p.Policy.FromFieldPath == nil || *p.Policy.FromFieldPath == "Optional")) ==> err == nil
+//@ ensures [C10:required-missing-is-an-error] (missing && !(p.Policy == nil || p.Policy.FromFieldPath == nil || *p.Policy.FromFieldPath == "Optional")) ==> err != nil
+
+//@ func composite.ApplyCombineFromVariablesPatch
+//@ props C10
+//@ sweep
+
+//@ func composite.IsOptionalFieldPathNotFound
+//@ props C10
+//@ sweep
+//@ frame fresh-only
+//@ ensures [C10:optional-missing-field-predicate] result <==> ((p == nil || p.FromFieldPath == nil || *p.FromFieldPath == "Optional") && fieldpath.IsNotFound(err))
+
+//@ func composite.Combine
+//@ props C10
+//@ sweep
+
+//@ func composite.CombineString
+//@ props C10
+//@ sweep
+
+//@ func composite.ComposedTemplates
+//@ props C10
+//@ sweep
+
+//@ func composite.RenderFromJSON
+//@ props C10
+//@ sweep
+
+//@ func composite.RenderFromCompositePatches
+//@ props C10
+//@ sweep
+
+//@ func composite.RenderToCompositePatches
+//@ props C10
+//@ sweep
+
+//@ func composite.RenderComposedResourceMetadata
+//@ props C10
+//@ sweep
+
